@@ -59,7 +59,9 @@ for it in range(R.n(60, 1500)):
     use_b = rng.random() < 0.5
     if use_b:
         lo = fr.fmin + rng.uniform(-3, n - 1) * df; hi = lo + rng.uniform(0.6, n) * df
-        b0 = max(int(fr.get_index(lo)), 0); b1 = min(int(fr.get_index(hi)), n)
+        # channel index of a frequency, computed here (not through the frame): nearest channel of the ascending in-memory axis
+        fmin_ref = (fr.fch1 if fr.ascending else fr.fch1 - (n - 1) * df)
+        b0 = max(int(np.round((lo - fmin_ref) / df)), 0); b1 = min(int(np.round((hi - fmin_ref) / df)), n)
         if b1 <= b0:
             continue
         br = (lo, hi)
